@@ -242,6 +242,30 @@ func genTCP(rn *runner, r *vc.Rand, thorough bool) {
 			rn.add(tcpLineK(ka, epStr("err", true, -1, false, []string{"6162", "63"}), kb, epStr("eof", false, -1, false, []string{"7172", "73", "74"}), "aabbbb"), "tcp:kinds-all")
 		}
 	}
+	// (1d) one side FAILS (read error, alone or fused with data; refused Write) while the other side is PASSIVE:
+	// it ends only after the relay has signalled the end of the other direction to it. Every interleaving.
+	for _, kOther := range []string{"cw", "same", "split", "none"} {
+		fails := []string{
+			epStr("err", false, -1, false, []string{}),
+			epStr("err", false, -1, false, []string{"6162"}),
+			epStr("err", true, -1, false, []string{"6162", "63"}),
+			epStr("eof", false, -1, false, []string{"6162"}),
+		}
+		for fi, f := range fails {
+			nf := []int{1, 2, 3, 2}[fi]
+			for _, pas := range [][]string{{}, {"7172"}} {
+				p := epStr("hold", false, -1, false, pas)
+				for _, sc := range interleavings('a', 'b', nf, len(pas)+1) {
+					rn.add(tcpLineK(kOther, f, "cw", p, sc), "tcp:passive-peer")
+					rn.add(tcpLineK("cw", p, kOther, f, strings.Map(func(r rune) rune { return 'a' + 'b' - r }, sc)), "tcp:passive-peer")
+				}
+			}
+		}
+		// the passive side refuses a Write: that direction ends with a write error, the passive side must still be told
+		rn.add(tcpLineK(kOther, epStr("eof", false, -1, false, []string{"6162", "63"}), "cw", epStr("hold", false, 0, false, []string{"7172"}), "abab"), "tcp:passive-peer")
+		rn.add(tcpLineK(kOther, epStr("eof", false, -1, false, []string{"6162", "63"}), "cw", epStr("hold", false, 1, false, nil), "aAxb"), "tcp:passive-peer")
+		rn.add(tcpLineK("cw", epStr("hold", false, 0, false, nil), kOther, epStr("err", false, -1, false, []string{"7172"}), "bab"), "tcp:passive-peer")
+	}
 	// (2) faults: refused writes at every index, full close (writes refused once the side's tail was seen)
 	rounds := 500
 	if thorough {
